@@ -5,7 +5,7 @@ from __future__ import annotations
 
 import base64
 
-from vf.gens import base, pe, shellgen, skel
+from vf.gens import base, layers, netgen, pe, shellgen, skel
 
 DEPTHS = [-(2 ** 31), -1, 0, 1, 2, 3, 10, 12, 50, 10 ** 6, 2 ** 63]
 
@@ -144,9 +144,76 @@ def g_large(spec, r):
         yield "large", b"".join(parts)[:size], None
 
 
+def g_repeat(spec, r):
+    """The same material twice (or three times) in one input: shared/cached result objects show up as
+    nodes reachable twice."""
+    seeds = base.harvest_seeds()
+    urls = [b"http://evil.example.com/a/b?x=1#f", b"https://user:pw@1.2.3.4:8080/p/../q", b"ftp://example.org/file.exe",
+            b"\\\\host.example.com\\share\\a.exe", b"C:\\Windows\\System32\\calc.exe", b"p^owershell -e ZQBjAGgAbwAgAGIAZQBlAA==",
+            b"FromBase64String('ZHVjaw==') -bxor 35", b"user@example.com", b"93.184.216.34"]
+    while True:
+        x = r.random()
+        s = r.choice(urls) if x < 0.4 else (r.choice(seeds) if x < 0.8 else base.soup(r, 8))
+        s = s[:4000]
+        sep = r.choice([b" ", b"\n", b" and ", b"', '", b"\x00"])
+        yield "repeat", sep.join([s] * r.choice([2, 2, 3])), None
+
+
+def _embed(r, ind: bytes) -> bytes:
+    dl, dr = r.choice(netgen.DELIMS + [(b"'", b"'"), (b"(", b")"), (b"", b""), (b"=", b";"), (b"cmd /c start ", b""),
+                                       (b"x 'powershell iwr ", b"'"), (b"\x0d", b"0000")])
+    pre = netgen.offsets_prefix(r) if r.random() < 0.7 else base.soup(r, 5)
+    post = netgen.neutral_text(r) if r.random() < 0.7 else base.soup(r, 5)
+    return pre + dl + ind + dr + post
+
+
+def g_url(spec, r):
+    while True:
+        u = netgen.url(r)
+        x = r.random()
+        if x < 0.75:
+            yield "url", _embed(r, u["text"]), None
+        elif x < 0.9:
+            yield "url:mut", _embed(r, base.mutate(r, u["text"], [])), None
+        else:
+            yield "url:two", _embed(r, u["text"]) + b" " + _embed(r, netgen.url(r)["text"]), None
+
+
+def g_ioc(spec, r):
+    while True:
+        k = r.randrange(9)
+        if k == 0:
+            ind = netgen.ipv4(r)
+        elif k == 1:
+            ind = netgen.domain(r, case_mix=r.random() < 0.3)
+        elif k == 2:
+            ind = netgen.email(r)
+        elif k == 3:
+            ind = netgen.posix_path(r)
+        elif k in (4, 5):
+            ind = netgen.windows_path(r)[0]
+        elif k == 6:
+            ind = netgen.exe_name(r)
+        elif k == 7:
+            ind = netgen.createobject(r)
+        else:
+            ind = r.choice([b"256.1.1.1", b"1.2.3.04", b"0x7f.0.0.1", b"1.2.3.4.5", b"10.0.0.255", b"0.0.0.0", b"999.1.1.1",
+                            b"a.notatld", b"xn--abcde.xn--p1ai", b"foo.com1", b"foo.com0", b"x@y.com", b"a..b@example.com",
+                            b"user@host.zzzzq", b"1.2.3.4%20", b"\\\\010.1.1.1\\share\\f.txt", b"\\\\?\\UNC\\0x7f.1\\share\\a.dll"])
+        yield "ioc", _embed(r, ind), None
+
+
+def g_layer(spec, r):
+    while True:
+        rec = layers.build_stack(r, r.choice([1, 1, 2, 2, 3, 4]))
+        if rec is None:
+            continue
+        yield "layer:" + "/".join(l["name"] for l in rec["layers"]), rec["data"], None
+
+
 GENERATORS = {
     "skel": g_skel, "xor": g_xor, "cmd": g_cmd, "pe": g_pe, "xorbytes": g_xorbytes, "matryoshka": g_matryoshka,
-    "nesting": g_nesting, "seedmut": g_seedmut, "soup": g_soup, "large": g_large,
+    "nesting": g_nesting, "seedmut": g_seedmut, "soup": g_soup, "large": g_large, "repeat": g_repeat, "url": g_url, "ioc": g_ioc, "layer": g_layer,
 }
 
 
